@@ -453,3 +453,35 @@ def g_matmul_mono(rng, level=0, n_random=150):
         N = int(rng.integers(1, 4))
         m = pa.PauliMonomial(bits(rng, 2 * N), int(rng.integers(0, 4))).set_c(complex(rng.normal(), rng.normal()))
         yield {'self': pa.Pauli(bits(rng, 2 * N), int(rng.integers(0, 4))), 'other': m}
+
+CI = 'pyclifford/circuit.py::'
+
+
+def _gate_gen(rng, N):
+    import pyclifford.circuit as ci
+    pa, _ = _pc()
+    g = ci.CliffordGate(*range(N))
+    g.generator = pa.Pauli(bits(rng, 2 * N), int(2 * rng.integers(0, 2)))
+    return g
+
+
+@gen(CI + 'CliffordGate.forward#generator_global')
+@gen(CI + 'CliffordGate.backward#generator_global')
+def g_gate_gen(rng, level=0, n_random=120):
+    pa, _ = _pc()
+    for _ in range(n_random):
+        N = int(rng.integers(1, 4))
+        L = int(rng.integers(0, 4))
+        yield {'self': _gate_gen(rng, N), 'obj': pa.PauliList(bits(rng, L, 2 * N), rng.integers(0, 4, L).astype(np.int64))}
+
+
+@gen(CI + 'CliffordGate.forward#map_global')
+def g_gate_map(rng, level=0, n_random=120):
+    import pyclifford.circuit as ci
+    pa, _ = _pc()
+    for _ in range(n_random):
+        N = int(rng.integers(1, 4))
+        L = int(rng.integers(0, 4))
+        g = ci.CliffordGate(*range(N))
+        g.forward_map = _rand_map(rng, N)
+        yield {'self': g, 'obj': pa.PauliList(bits(rng, L, 2 * N), rng.integers(0, 4, L).astype(np.int64))}
